@@ -74,6 +74,30 @@ def derived_cases(rng, n, max_depth):
     return out
 
 
+def iterator_capture_cases():
+    """An ancestor's name renamed ONTO the iterator symbol of a custom sequence further down, the name reaching the repeated
+    routine inside a compound value (a local variable 2*N + 1, a child's cost): refused, or the same numbers -- never a sum
+    whose dummy captured the outer symbol."""
+    def node(name, params=(), links=(), kids=(), res=(), rep=None, locs=()):
+        return {"name": name, "type": None, "input_params": list(params), "local_variables": [list(l) for l in locs], "linked_params": [list(l) for l in links],
+                "ports": [], "resources": list(res), "connections": [], "repetition": rep, "children": list(kids)}
+    out = []
+    for it in ("j", "i", "k"):
+        for via_local in (True, False):
+            body = node("body", params=["q"], res=[{"name": "T", "type": "additive", "value": E.sym("q")}])
+            loop = node("loop", params=["p", "n"], links=[["p", [["body", "q"]]]], kids=[body],
+                        rep={"count": E.sym("n"), "sequence": {"kind": "custom", "term_expression": E.op("add", E.sym(it), E.num(1)), "iterator_symbol": it}})
+            w = E.op("add", E.op("mul", E.num(2), E.sym("N")), E.num(1))
+            if via_local:
+                root = node("root", params=["N", "K"], locs=[["w", w]], links=[["w", [["loop", "p"]]], ["K", [["loop", "n"]]]], kids=[loop])
+            else:
+                mid = node("mid", params=["a", "b"], locs=[["v", E.op("add", E.sym("a"), E.num(3))]], links=[["v", [["loop", "p"]]], ["b", [["loop", "n"]]]], kids=[loop])
+                root = node("root", params=["N", "K"], locs=[["w", w]], links=[["w", [["mid", "a"]]], ["K", [["mid", "b"]]]], kids=[mid])
+            for pi in ({"N": it}, {"N": "M"}, {"K": it}):
+                out.append({"routine": root, "path": [], "pi": pi, "refusable": True})
+    return out
+
+
 def emit(pairs):
     lines = [lib.CASE_HEADER.format(imports="RepModel Routine Compile CompileTop Checks", gen_imports="")]
     items = []
@@ -98,6 +122,8 @@ def emit(pairs):
         if dl:
             items.append(f"(check_rename_case_d {E.coq_string(dl['name'])} RAdditive {E.coq_string(dl['of'])} {E.coq_q(dl['a'])} {E.coq_q(dl['b'])} "
                          f"r{k} i{k} j{k} {backc} {inex} {pts})")
+        elif case.get("refusable"):
+            items.append(f"(check_rename_case_refusable r{k} i{k} j{k} {backc} {inex} {pts})")
         else:
             items.append(f"(check_rename_case r{k} i{k} j{k} {backc} {inex} {pts})")
     lines.append("Definition results : list (list nat * list nat) :=\n " + E.coq_list(items) + ".\n")
@@ -161,7 +187,7 @@ def streams(tier, seed):
     nested = [{"routine": c["routine"], "path": ["inner"] if c["routine"]["children"][0]["name"] == "inner" else ["leaf"],
                "pi": ({"N": "K", "R": "N"} if c["routine"]["children"][0]["name"] == "inner" else {"N": "K"})}
               for c in c07.nested_iterator_cases()]
-    s1 = mk_stream(lib.load_corpus(PROP, "hier-rename") + nested + gen_cases(rng, n, 3) + derived_cases(rng, 30 if tier == "quick" else 500, 3))
+    s1 = mk_stream(lib.load_corpus(PROP, "hier-rename") + nested + iterator_capture_cases() + gen_cases(rng, n, 3) + derived_cases(rng, 30 if tier == "quick" else 500, 3))
     s2 = dict(c05.mk_stream(lib.load_corpus(PROP, "eval") + mutual_cases(rng, 40 if tier == "quick" else 600)), name="eval-mutual")
     return [s1, s2]
 
